@@ -133,7 +133,7 @@ SPEC = {
     "translators": [["locks", "-out", "{gen}/C20Locks.v"]],
     "coq_targets": ["C20/Model.vo", "C20/Spec.vo", "C20/Lemmas.vo", "C20/ProofsWF.vo", "C20/ProofsWF2.vo",
                     "C20/ProofsWF3.vo", "C20/ProofsCaps.vo", "C20/ProofsNonce.vo", "C20/ProofsNonce2.vo",
-                    "C20/ProofsNonce3.vo", "C20/ProofsNonce4.vo", "C20/ProofsNonce5.vo", "C20/ProofsTotal.vo", "C20/ProofsLocals.vo", "C20/Proofs.vo",
+                    "C20/ProofsNonce3.vo", "C20/ProofsNonce4.vo", "C20/ProofsNonce5.vo", "C20/ProofsTotal.vo", "C20/ProofsLocals.vo", "C20/ProofsSched.vo", "C20/Proofs.vo",
                     "gen/C20Locks.vo", "C20/Bridge.vo", "C20/Properties.vo"],
     "coq_dirs": ["C20"],
     "properties_v": "C20/Properties.v",
@@ -142,8 +142,8 @@ SPEC = {
         "C20_pending_gapfree_refuted", "C20_pending_gapfree_holds_outside", "C20_state_clauses_after_repair",
         "C20_pending_api_exact", "C20_never_panics", "C20_limits_after_every_reorg",
         "C20_account_queue_after_submission", "C20_accepted_is_pooled",
-        "C20_locals_only_from_accepted_local_submissions", "C20_lock_discipline", "C20_read_regions_do_not_write", "C20_evict_branch_as_modelled",
-        "C20_nonvacuous_partition", "C20_nonvacuous_repair", "C20_nonvacuous_holds_outside", "C20_nonvacuous_limits",
+        "C20_locals_only_from_accepted_local_submissions", "C20_merged_resets_equal_last_head", "C20_lock_discipline", "C20_read_regions_do_not_write", "C20_evict_branch_as_modelled", "C20_scheduler_merge_as_modelled",
+        "C20_nonvacuous_partition", "C20_nonvacuous_repair", "C20_nonvacuous_holds_outside", "C20_nonvacuous_limits", "C20_nonvacuous_merge",
     ],
     "cases": {"quick": 300, "thorough": 4500},
     "shard": 300,
@@ -160,7 +160,10 @@ SPEC = {
         "scheduler choices the harness cannot observe (Go map order, sort.Sort on equal heartbeats) are searched by the model runner",
         "hook hooks/core/zz_verif_c20.go: exports internals, runs single critical sections; replicates the 6-line eviction branch of TxPool.loop "
         "(fingerprinted by the translator, obligation C20_evict_branch_as_modelled)",
-        "translator 'c20 locks' (go/ast inventory of lock regions of every TxPool method -> coq/gen/C20Locks.v)",
+        "translator 'c20 locks' (go/ast inventory of lock regions of every TxPool method -> coq/gen/C20Locks.v; also fingerprints the two "
+        "request-merging branches of scheduleReorgLoop, obligation C20_scheduler_merge_as_modelled)",
+        "coalesced head changes: the hook hands a burst of events to the real scheduleReorgLoop while it holds pool.mu (a run is in flight, nothing is "
+        "awaited), so the scheduler's own merging produces the run that is compared with Model.merge_all / run_merged",
         "harness-side detection of whether the tree carries fixes/C20_pending_gap_after_partial_reinject.diff (selects the model's gapfix branch)",
     ],
     "assumptions": [
@@ -178,7 +181,7 @@ SPEC = {
     ],
     "modelled": ["core.(*TxPool).add", "addTxsLocked", "validateTx", "enqueueTx", "promoteTx", "promoteExecutables",
                  "demoteUnexecutables", "reset", "runReorg", "truncatePending", "truncateQueue", "removeTx", "SetGasPrice",
-                 "Pending", "eviction branch of loop", "txList.*", "txSortedMap.*", "txNoncer.*", "txLookup.*",
+                 "Pending", "eviction branch of loop", "scheduleReorgLoop (request merging: sched_merge / merge_all / run_merged)", "txList.*", "txSortedMap.*", "txNoncer.*", "txLookup.*",
                  "txPricedList.Underpriced/Discard/Cap (by meaning)"],
     "partial": [
         "re-injection completeness (a still-valid transaction of an abandoned block is pooled after the reset unless refused for a "
@@ -186,6 +189,10 @@ SPEC = {
         "C20_accepted_is_pooled covers only 'what add accepts is pooled'",
         "after a reset the code gives no per-account AccountQueue bound (demoteUnexecutables re-queues without capping): "
         "C20_account_queue_after_submission is stated for the reorg run that follows a submission",
+        "C20_merged_resets_equal_last_head is about the merging and the run launched for it (merged request = first old head, LAST new head, "
+        "union of dirty sets; the pool ends on that head's state and gas limit when the reset takes effect); the goroutine/channel mechanics of "
+        "scheduleReorgLoop (which requests end up in which run) are exercised on the real scheduler by the burst ops and their oracle clause "
+        "'pool-on-stale-head', not modelled in Coq",
         "totality assumes the blockChain contract (reset's new head is known to the chain); an unknown new head inside the reorg-walk range makes Go dereference nil",
         "data races: Go memory model is outside Coq; lock inventory (C20_lock_discipline: shared fields only inside pool.mu; "
         "C20_read_regions_do_not_write: nothing reachable from an RLock-only region writes shared state, lazy caches included), "
